@@ -250,7 +250,7 @@ contract('loader.ConfigLoader.__init__', params={'schema': 'Ref[info.SectionType
 contract('loader.ConfigLoader.createSchemaMatcher', returns='Ref[matcher.SchemaMatcher]', fresh_result=True,
          requires=[Clause('invariant_of(self.schema)', label='RI-of-the-schema')],
          ensures=[Clause('fresh(result) and result.type == self.schema and len(result.handlers.items) == 0 and '
-                         'fresh(result.handlers)', carries='C13', label='new-matcher-for-the-schema')],
+                         'fresh(result.handlers) and not result.finished', carries='C13', label='new-matcher-for-the-schema')],
          static_ensures=[Clause("isclass(result, 'matcher.SchemaMatcher')", label='constructs-a-plain-schema-matcher')])
 
 IOERR = contracts.cfgparser.IOERR
@@ -258,8 +258,9 @@ INCL = "(old(self._including) if old(self.has_including) else [])"
 contract('loader.ConfigLoader._parse_resource',
          params={'matcher': 'Ref[matcher.BaseMatcher]', 'resource': 'Ref[loader.Resource]',
                  'defines': ('Opt[Ref[dict:defines]]', 'None')},
-         requires=[Clause('resource.file is not None', label='resource-is-open')],
-         modifies=['resource.file.lines', 'GHOST.open_files', '*Sink.events', 'defines.items'] + LOADER_SCHEMA,
+         requires=[Clause('resource.file is not None', label='resource-is-open'),
+                   Clause('not matcher.finished', label='text-is-read-into-an-open-section')],
+         modifies=['resource.file.lines', 'GHOST.open_files', '*Sink.events', 'defines.items', '+Sink.finished'] + LOADER_SCHEMA,
          asserts=[At('args[0] == resource and args[1] == self and args[2] == defines',
                      call='ZConfig.cfgparser.ZConfigParser', carries='C05,C06',
                      label='parser-gets-this-resource-this-loader-and-the-SAME-definitions-object'),
@@ -269,8 +270,8 @@ contract('loader.ConfigLoader._parse_resource',
          raises=[Raise('ZConfig.ConfigurationError+', then=[UNCHANGED_OPEN], carries='C07,C19', label='rejected'), IOERR])
 contract('loader.ConfigLoader.includeConfiguration',
          params={'section': 'Ref[matcher.BaseMatcher]', 'url': 'str', 'defines': 'Ref[dict:defines]'},
-         requires=[Clause('url_ok(url)', label='url-parses')],
-         modifies=['self._including', 'self.has_including', 'GHOST.open_files', '*Sink.events', 'defines.items']
+         requires=[Clause('url_ok(url)', label='url-parses'), Clause('not section.finished', label='included-into-an-open-section')],
+         modifies=['self._including', 'self.has_including', 'GHOST.open_files', '*Sink.events', 'defines.items', '+Sink.finished']
          + LOADER_SCHEMA,
          asserts=[At('args[0] == section and args[2] == defines and val(args[1].url) == defrag_of(%s)'
                      % NORM_IN.replace('(url)', '(old(url))').replace('else url)', 'else old(url))'),
@@ -301,12 +302,14 @@ contract('loader.ConfigLoader.startSection',
                          "not isa(self.schema._types.items[type_.lower()], 'info.AbstractType') and "
                          "result.type == self.schema._types.items[type_.lower()]", carries='C01,C12',
                          label='known-concrete-type'),
-                  Clause('fresh(result) and result.handlers == parent.handlers', carries='C13,C16')],
+                  Clause('fresh(result) and result.handlers == parent.handlers and not result.finished', carries='C13,C16')],
          raises=[Raise('ZConfig.ConfigurationError+', carries='C01,C12',
                        label='unknown-or-abstract-type-or-no-slot-or-name-not-allowed')])
 contract('loader.ConfigLoader.endSection',
          params={'parent': 'Ref[matcher.BaseMatcher]', 'type_': 'str', 'name': 'Opt[str]',
                  'matcher': 'Ref[matcher.BaseMatcher]'},
+         requires=[Clause('not matcher.finished', label='closed-at-most-once (the precondition of ParserContext.endSection, '
+                          'which the parser proves at its call)')],
          modifies=['matcher._values', 'matcher.handlers.items', 'matcher.finished', 'parent._values', 'parent._sectionnames',
                    'matcher.optionbag.keypairs'],
          asserts=[At('args[0] == type_ and args[1] == name', call='parent.addSection', carries='C01,C02',
@@ -316,7 +319,7 @@ contract('loader.ConfigLoader.endSection',
 contract('loader.ConfigLoader.loadResource', params={'resource': 'Ref[loader.Resource]'},
          returns='Tuple[Opaque[PyVal], Ref[loader.CompositeHandler]]',
          requires=[Clause('resource.file is not None', label='resource-is-open'), SCHEMA_WF],
-         modifies=['resource.file.lines', 'GHOST.open_files', '*Sink.events'] + LOADER_SCHEMA,
+         modifies=['resource.file.lines', 'GHOST.open_files', '*Sink.events', '+Sink.finished'] + LOADER_SCHEMA,
          asserts=[At('args[1] == resource and fresh(args[0]) and args[0].type == old(self.schema) and '
                      'len(args[0].handlers.items) == 0 and len(args) == 2', call='self._parse_resource',
                      carries='C01,C05,C13', label='text-read-into-a-new-matcher-for-the-schema-with-no-definitions-carried-over'),
